@@ -220,3 +220,47 @@ def eval_conds(alt, assign):
         if val != pol:
             return False
     return res
+
+
+def flatten(tree, limit=64):
+    """distribute 'choice' nodes nested anywhere in `tree` to the top: [Alt] whose values contain no choice node"""
+    def go(t):
+        if not isinstance(t, tuple) or not t:
+            return [(t, (), ())]
+        if t[0] == 'choice':
+            out = []
+            for v, vf, at in t[1]:
+                for vv, vf2, at2 in go(v):
+                    out.append((vv, tuple(vf) + vf2, tuple(at) + at2))
+            return out[:limit]
+        if t[0] in ('const', 'arg', 'upvar', 'env', 'item', 'fn', 'uninit', 'var', 'phi'):
+            return [(t, (), ())]
+        combos = [((), (), ())]
+        for x in t:
+            if isinstance(x, tuple):
+                nxt = []
+                for pre, vf, at in combos:
+                    for vv, vf2, at2 in go(x):
+                        nxt.append((pre + (vv,), vf + vf2, at + at2))
+                        if len(nxt) > limit:
+                            break
+                combos = nxt[:limit]
+            else:
+                combos = [(pre + (x,), vf, at) for pre, vf, at in combos]
+        return combos
+    def proj(t):
+        # field of a literal aggregate -> the component
+        if not isinstance(t, tuple) or not t:
+            return t
+        t = tuple(proj(x) if isinstance(x, tuple) else x for x in t)
+        if t[0] == 'field' and isinstance(t[2], int):
+            a = peel(t[1])
+            if isinstance(a, tuple) and a and a[0] == 'agg' and a[1] in ('tuple', 'array') and t[2] < len(a[3]):
+                return a[3][t[2]]
+        return t
+    return [Alt(proj(v), vf, at) for v, vf, at in go(tree)]
+
+
+def ret_alts(facts, body):
+    """flat alternatives of the return value of `body` (multi-definition temporaries expanded, nested choices distributed)"""
+    return flatten(ret_choice(facts, body))
